@@ -452,6 +452,16 @@ impl Report
 	}
 	
 	
+	/// Verification hook (compiled only with `--cfg hlorenzi_customasm_verif`):
+	/// read-only view of every top-level message, in the order reported.
+	/// `Message` exposes `kind`, `span` and `inner` publicly.
+	#[cfg(hlorenzi_customasm_verif)]
+	pub fn verif_messages(&self) -> &[Message]
+	{
+		&self.messages
+	}
+	
+	
 	pub fn len(&self) -> usize
 	{
 		self.messages.len()
